@@ -12,7 +12,7 @@ import z3
 from symnp import Engine, Rebinder, SV, SB, SymArray, sym_array, to_obj, _raw, lift
 from symnp import ob as O
 from symnp.explore import Out
-from vf.common import Harness, snap, stubs, cached_options, LoggerStub, TargetFault
+from vf.common import Harness, snap, stubs, cached_options, LoggerStub, TargetFault, FaultSite
 from vf import astcut
 
 import pybads.bads.bads as badsmod
@@ -47,6 +47,7 @@ class HLB(Harness):
         D, k0, sc0 = p["D"], p.get("k0", -1), p["sc0"]
         level = p.get("level", 0)
         fault = p.get("fault", False)
+        fsite = FaultSite(p.get("fault_kind"))
         opts = cached_options(D, {})
         opts["noise_size"] = math.sqrt(opts["tol_fun"])
         ntry = int(opts["search_n_try"])
@@ -133,7 +134,7 @@ class HLB(Harness):
         def search(gp):
             self_.optim_state["search_count"] += 1
             if fault and eng.choose("fault_s"):
-                raise TargetFault("target failed in search")
+                fsite.fire("target failed in search")
             e = eng.choose("s_eval")
             if e:
                 fl.func_count = fl.func_count + 1
@@ -145,7 +146,7 @@ class HLB(Harness):
 
         def poll(gp):
             if fault and eng.choose("fault_p"):
-                raise TargetFault("target failed in poll")
+                fsite.fire("target failed in poll")
             pn = eng.fresh_int("p")
             if not eng.concrete:
                 eng.assume(z3.And(pn.e >= 0, pn.e <= 2 * D, z3.Implies(pn.e > 0, O.C(fl.func_count + pn <= Bv))))
@@ -171,10 +172,12 @@ class HLB(Harness):
         exc = None
         try:
             R = body(self_, Lin)
-        except TargetFault as e:
+        except Exception as e:
+            if not fsite.raised:
+                raise
             exc = e
         if fault:
-            out.ob("fault_escapes_loop_body", (exc is not None) == (ev["search"] is None and False or exc is not None))
+            out.ob("fault_escapes_loop_body", fsite.escaped(exc))
         if exc is not None:
             out.tag = dict(exc=True)
             return out
